@@ -351,6 +351,10 @@ func (e *Engine) runPath(h *ssa.Function, prefix []int64, wk *Worker, opts Explo
 		harness: h.Name(), vector: opts.Vector, schedChoice: opts.SchedChoice,
 	}
 	r.maxPreempt = e.bounds["P"]
+	r.maxDelay = -1
+	if d, ok := e.bounds["D"]; ok {
+		r.maxDelay = d
+	}
 	if e.bounds["race"] == 1 {
 		r.race = raceState{on: true, slots: map[slotKey]*slotState{}, syncVC: map[interface{}]VC{}, found: map[string]bool{}}
 	}
